@@ -476,14 +476,27 @@ func c17Oracle(line, out string) string {
 		// the library's own structs: their documented keys and aliases are written down here (the struct tags
 		// are code under test — an expectation read from them follows a slip in them)
 		if doc, ok := c17Documented[sid]; ok {
-			doc = append([]c17DocKey{}, doc...)
-			sort.Slice(doc, func(a, b int) bool { return doc[a].key < doc[b].key })
-			var dp []string
-			for _, e := range doc {
-				dp = append(dp, c17hx(e.key)+"="+strconv.Itoa(e.field)+e.kind)
+			// every documented key is there and names its member (further aliases may be added: only the
+			// absence or the re-targeting of a documented key breaks what users rely on); members are compared
+			// by the json name they resolve to, so that added members do not shift anything
+			got := map[string]string{}
+			for _, e := range strings.Split(strings.TrimPrefix(out, "table "), ",") {
+				if kv := strings.SplitN(e, "=", 2); len(kv) == 2 {
+					if k, ok := c17unhx(kv[0]); ok {
+						got[k] = kv[1]
+					}
+				}
 			}
-			if out != "table "+strings.Join(dp, ",") {
-				return c17ClTable + " (documented keys of the library's own struct)"
+			canon := map[int]string{}
+			for _, e := range doc {
+				if _, ok := canon[e.field]; !ok {
+					canon[e.field] = e.key // the first key listed for a member is its json name
+				}
+			}
+			for _, e := range doc {
+				if got[e.key] == "" || got[e.key] != got[canon[e.field]] || !strings.HasSuffix(got[e.key], e.kind) {
+					return c17ClTable + " (documented key " + e.key + " of the library's own struct)"
+				}
 			}
 		}
 	case "rtsimple", "rturi":
